@@ -173,18 +173,20 @@ type poolWorld struct {
 	b   balancer.Balancer
 	gb  *gcpBalancer
 
-	slots    []*refSlot
-	bind     map[string]*refSlot
-	standin  map[string]*refSlot
-	addrs    string
-	resolved bool
-	calls    []*call // open (returned, not completed) and parked calls
-	ncalls   int
-	rrEpoch  int
-	rrSeq    int
-	rrBase   int
-	rrBaseOK bool
-	unknown  *fakeSC
+	slots                     []*refSlot
+	bind                      map[string]*refSlot
+	standin                   map[string]*refSlot
+	addrs                     string
+	resolved                  bool
+	calls                     []*call // open (returned, not completed) and parked calls
+	pairCalls                 []*call // snapshot of the open calls after the setup (pairs harness)
+	pairPlaced, pairCompleted int
+	ncalls                    int
+	rrEpoch                   int
+	rrSeq                     int
+	rrBase                    int
+	rrBaseOK                  bool
+	unknown                   *fakeSC
 
 	opIndex  int
 	lastOp   string
